@@ -126,6 +126,10 @@ pub const QUERIES: [&str; 8] = [
     "$[?count(@.*)>1||@.s=='ab']",
 ];
 
+/// queries the parser must reject after the grammar accepted them (model-building errors inside a filter) and
+/// plain syntax errors: string entry points only; their baseline is an Err
+pub const REJECTED: [&str; 5] = ["$[?length(@.a,@.b)==1]", "$[?count(1)>0]", "$[?match(@.s,'a')==true]", "$[?@.n==9007199254740993]", "$[?@.n==]"];
+
 pub fn hist_docs() -> Vec<Value> {
     vec![
         json!([{"s": "a", "n": 1, "a": [1]}, {"s": "ab", "n": 2}, {"s": "ba", "n": 3, "a": {"a": 2}}, "a"]),
@@ -149,6 +153,9 @@ pub fn ops() -> Vec<Op> {
             v.push(Op { entry: 3, query: q, doc: d });
         }
     }
+    for (i, _) in REJECTED.iter().enumerate() {
+        v.push(Op { entry: (i % 3) as u8, query: (QUERIES.len() + i) as u8, doc: (i % 2) as u8 });
+    }
     v
 }
 
@@ -169,11 +176,12 @@ impl HistCtx {
         HistCtx::with_docs(hist_docs())
     }
     pub fn with_docs(docs: Vec<Value>) -> HistCtx {
-        HistCtx::with(docs, QUERIES.iter().map(|q| q.to_string()).collect())
+        HistCtx::with(docs, QUERIES.iter().chain(REJECTED.iter()).map(|q| q.to_string()).collect())
     }
     pub fn with(docs: Vec<Value>, queries: Vec<String>) -> HistCtx {
         let ams = docs.iter().map(AddrMap::new).collect();
-        let prepared = queries.iter().map(|q| Shared(imp::parse(q).expect("no panic").unwrap_or_else(|e| panic!("harness query {} must parse: {}", q, e)))).collect();
+        // a query the parser rejects has no prepared form; it is only used through the string entry points
+        let prepared = queries.iter().map(|q| Shared(imp::parse(q).expect("no panic").unwrap_or_else(|_| JpQuery::new(vec![])))).collect();
         HistCtx { docs, ams, queries, prepared }
     }
     /// the operation evaluated with a caller-supplied parsed query (shared by the threads of one execution)
@@ -866,7 +874,7 @@ pub fn run(tier: &str) -> i32 {
     }
     run.finish(
         acc,
-        "entry points: one case = (query string, document) through query, query_only_path, query_with_path, a query parsed once (twice, and cloned) with the document serialized before and after; histories: every pair of operations of a 32-operation alphabet in its own fresh process and, in one process, every window of length w, each result compared with the same operation run first in a fresh process (states = operations, transitions = executed operations); update histories: every sequence of up to 2 (3) in-place writes through reference_mut on a live document, a panel of 12 queries evaluated before and after each write on the live document and on an equal freshly built one (differential); schedules: stateless depth-first exploration of every interleaving with at most k preemptions of 2-3 real threads sharing one parsed query and one document, scheduling points = the verif hooks at every evaluation step, each thread's results compared with the operations run alone (transitions = complete schedules, states = distinct observed outcomes); non-trivial = operations / schedules executed",
+        "entry points: one case = (query string, document) through query, query_only_path, query_with_path, a query parsed once (twice, and cloned) with the document serialized before and after; histories: every pair of operations of a 37-operation alphabet (32 evaluations + 5 queries the parser must reject) in its own fresh process and, in one process, every window of length w, each result compared with the same operation run first in a fresh process (states = operations, transitions = executed operations); update histories: every sequence of up to 2 (3) in-place writes through reference_mut on a live document, a panel of 12 queries evaluated before and after each write on the live document and on an equal freshly built one (differential); schedules: stateless depth-first exploration of every interleaving with at most k preemptions of 2-3 real threads sharing one parsed query and one document, scheduling points = the verif hooks at every evaluation step, each thread's results compared with the operations run alone (transitions = complete schedules, states = distinct observed outcomes); non-trivial = operations / schedules executed",
         &[
             "scheduling points exist only at the hooks; safe Rust without interior mutability has no other place where threads can interact",
             "Send + Sync of JpQuery / JsonPathError / QueryRef is a type-check side condition (mc/static_assert)",
